@@ -27,7 +27,10 @@ pub fn run(rep: &mut Rep) {
                                 if !rep.take(idx, &id) {
                                     continue;
                                 }
-                                let mut w = World::boot(WorldCfg { seed: rep.seed, order, ..Default::default() });
+                                // packet identifiers across the byte / sign / wrap boundaries (hook H2)
+                                let ids = [1u16, 255, 256, 0x7fff, 0x8000, 65534];
+                                let pid = ids[(companion as usize + order as usize * 4 + r1 + hold as usize * 2) % ids.len()];
+                                let mut w = World::boot(WorldCfg { seed: rep.seed, order, seed_ids: Some((pid, 1)), ..Default::default() });
                                 let mut comp = None;
                                 match companion {
                                     1 => comp = Some(w.start(1, Kind::Sub)),
@@ -83,7 +86,7 @@ pub fn run(rep: &mut Rep) {
             }
         }
     }
-    rep.note("sweep: QoS 0/1/2 x every legal PUBACK(9)/PUBREC(9)/PUBCOMP(2) reason x short/full form x QoS 2 future polled promptly or late x companion {none, subscribe outstanding, QoS 1 publish outstanding, inbound QoS 1/2 traffic} x 2 poll orders");
+    rep.note("sweep: QoS 0/1/2 x every legal PUBACK(9)/PUBREC(9)/PUBCOMP(2) reason x short/full form x QoS 2 future polled promptly or late x companion {none, subscribe outstanding, QoS 1 publish outstanding, inbound QoS 1/2 traffic} x 2 poll orders x packet identifiers {1,255,256,0x7fff,0x8000,65534..} via hook H2");
     // 2. bounded-exhaustive interleavings
     let a = Alpha {
         kinds: vec![Kind::Pub0, Kind::Pub1, Kind::Pub2, Kind::Ping],
